@@ -52,7 +52,7 @@ Theorem C09_fits_refuted_pinned : exists M attr v4a v4w fams m,
   In m (fst (split_bytes_pinned M attr v4a v4w fams)) /\ M < wire_size zlen zlen (zlen attr) m.
 Proof.
   exists 4096, (blob 4069), [nlri_of 4; nlri_of 5], [], [].
-  eexists. split; [right; left; reflexivity | vm_compute; reflexivity].
+  apply (exists_oversize _ _ 4097); [rewrite pinned_v4_oversize; right; left; reflexivity | reflexivity].
 Qed.
 
 (* ... and on the MP path: room 26, next hop of 16 bytes, NLRIs of 2 then 17 bytes: 4111 bytes *)
@@ -60,7 +60,7 @@ Theorem C09_fits_refuted_pinned_mp : exists M attr v4a v4w fams m,
   In m (fst (split_bytes_pinned M attr v4a v4w fams)) /\ M < wire_size zlen zlen (zlen attr) m.
 Proof.
   exists 4096, (blob 4047), [], [], [(2, [(nh16, nlri_of 2); (nh16, nlri_of 17)], [])].
-  eexists. split; [right; left; reflexivity | vm_compute; reflexivity].
+  apply (exists_oversize _ _ 4111); [rewrite pinned_reach_oversize; right; left; reflexivity | reflexivity].
 Qed.
 
 (* C09_no_room_no_message is false of the pinned code: RuntimeError *)
